@@ -138,6 +138,11 @@ func decCase(in []int64) (ops []opT, ok bool) {
 			o.Prio = cachectl.PrioSpec{ID: pos(), Value: next(), Global: next() != 0}
 		case 7:
 			o.A = []int64{pos(), next(), next()}
+		case 18:
+			o.A = []int64{next()}
+			if o.A[0] < 0 {
+				fail = true
+			}
 		case 2, 4, 6, 8, 14, 16, 17:
 			o.A = []int64{pos()}
 		case 9, 10, 13:
@@ -196,6 +201,8 @@ func apply(c *cachectl.Ctl, o opT) int64 {
 		c.PrioDelete(o.A[0])
 	case 17:
 		c.JobStatusUpdate(o.A[0])
+	case 18:
+		c.DrainResyncFailing(o.A[0])
 	}
 	return 0
 }
